@@ -221,12 +221,14 @@ def find_witness(kind, alias, first=(), n_random=60, seed=1):
     return None
 
 
-def fail(key, kind, alias, detail, model_pts=(), extra=None):
+def fail(key, kind, alias, detail, model_pts=(), extra=None, inconclusive_ok=False, n_random=60):
     """a VC failed: confirm with a concrete interpreter run (solver model first), else report honestly as not decided"""
     ce = {"t1_kernel": kind, "backend": "t1", "alias": alias, "replay-kind": "interpreter"}
     ce.update(extra or {})
-    w = find_witness(kind, alias, model_pts)
+    w = find_witness(kind, alias, model_pts, n_random)
     if w is None:
+        if inconclusive_ok:
+            return None
         raise Inconclusive("%s: %s; neither the solver model nor the boundary/random operands reproduce a difference in the concrete interpreter" % (key, detail))
     ce.update(w)
     raise Violation(key, "%s; confirmed in the interpreter's concrete mode: a=%s b=%s gives %s, reference %s" % (
@@ -311,7 +313,7 @@ def t1_simple(kind, alias=0, timeout_ms=60000):
 
 
 # ---------------------------------------------------------------------------------------------------------------
-# 768-bit product / square
+# deciding an identity between a sum of result words and a specification form
 # ---------------------------------------------------------------------------------------------------------------
 def residual_zero(L, D, facts=(), goal=None, timeout_ms=60000):
     """decide  facts => (D == 0 [and goal])  in a fresh small solver over the variables of the residual form D"""
@@ -328,6 +330,36 @@ def residual_zero(L, D, facts=(), goal=None, timeout_ms=60000):
     return True if r == z3.unsat else (False if r == z3.sat else None)
 
 
+def words_in_range(ws):
+    return all(isinstance(w, LV) and w.lo >= 0 and w.hi <= M32 for w in ws)
+
+
+def decide_sum(L, X, got_words, want, key, kind, alias, detail, model_pts_of):
+    """sum got_i 2^(32 i) == want for all values.  Order: normal forms; residual + ranges (small z3 query); concrete witness
+    search; the full constraint set (bounded time).  Returns a description of what decided it, or raises."""
+    got = L.resolve(lin_sum(L, got_words))
+    D = L.resolve(L.sub(got, want))
+    if not D.t and D.c == 0:
+        return "normal forms identical"
+    if words_in_range(got_words):
+        G, Wn = z3.Int("G!"), z3.Int("W!")
+        n = len(got_words)
+        if residual_zero(L, D, [G - Wn == L.z(D), G >= 0, G < (1 << (32 * n)), Wn >= want.lo, Wn <= want.hi]):
+            return "z3 on the residual of the normal forms (%d terms) + ranges of the result words and of the specification" % len(D.t)
+    fail(key, kind, alias, detail + lost_text(X), inconclusive_ok=True)
+    ident = L.eq(got, want)
+    ok = L.prove(ident, "identity", 30000)
+    if ok:
+        return "z3 on the full constraint set (QF_LIA)"
+    if ok is None:
+        raise Inconclusive("%s: solver unknown on the identity and no concrete witness found (%s)" % (key, detail))
+    env = L.model_for(z3.Not(ident)) or {}
+    fail(key, kind, alias, detail + lost_text(X), model_pts_of(env), n_random=0)
+
+
+# ---------------------------------------------------------------------------------------------------------------
+# 768-bit product / square
+# ---------------------------------------------------------------------------------------------------------------
 def t1_multiply(square, timeout_ms=120000):
     kind = "bigint_768_square" if square else "bigint_768_multiply"
     L = Lin32(timeout_ms)
@@ -337,21 +369,8 @@ def t1_multiply(square, timeout_ms=120000):
     bw, bh = (aw, ah) if square else sym_halves(L, "b", 12)
     sym, args, sargs, objs, ores = setup_call(X, kind, 0, aw, bw, {})
     X.call(sym, args, sargs, objs)
-    got = L.resolve(lin_sum(L, read_out(ores, 24)))
-    want = product_spec(L, ah, bh)
-    D = L.resolve(L.sub(got, want))
-    how = "normal forms identical"
-    ok = (not D.t and D.c == 0)
-    if not ok:
-        how = "full constraint set (QF_LIA)"
-        ok = L.prove(L.eq(got, want), "product identity")
-    key = "t1:" + kind
-    if ok is None:
-        raise Inconclusive("solver unknown on the product identity of " + sym)
-    if not ok:
-        env = L.model_for(z3.Not(L.eq(got, want))) or {}
-        fail(key, kind, 0, "%s: result is not sum a_i*b_j*2^(32(i+j))%s" % (sym, lost_text(X)),
-             [(model_value(env, "a", 12, True), model_value(env, "a" if square else "b", 12, True))])
+    how = decide_sum(L, X, read_out(ores, 24), product_spec(L, ah, bh), "t1:" + kind, kind, 0, "%s: result is not sum a_i*b_j*2^(32(i+j))" % sym,
+                     lambda env: [(model_value(env, "a", 12, True), model_value(env, "a" if square else "b", 12, True))])
     return stats(L, X, sym, "%s: %d instructions, %d dropped carries proved zero by z3 and eliminated, %d opaque 16x16 products, %d quotient variables; identity: %s" % (
         sym, X.steps, X.proved_carries, len(L.products), len(L.wraps), how))
 
@@ -373,7 +392,7 @@ def t1_montgomery(kind, alias=0, timeout_ms=120000):
     seen = {}
     sym, args, sargs, objs, ores = setup_call(X, kind, alias, aw, bw, seen)
     key = "t1:%s:alias=%d" % (kind, alias)
-    st = {"cut": False, "us": [], "prefix_how": None, "tv": None}
+    st = {"cut": False, "us": []}
 
     def is_inv(v):
         return isinstance(v, LV) and v.is_const() and v.c == QINV32
@@ -382,22 +401,17 @@ def t1_montgomery(kind, alias=0, timeout_ms=120000):
         if st["cut"] or not (is_inv(X_.regs[ra]) or is_inv(X_.regs[rb])):
             return
         # first multiplication by the inverse word: the 768-bit temporary must hold A; then continue from an arbitrary A < p*2^384
+        X_._drop()
         sp = X_.regs["sp"]
         tmp = [X_.load(Ptr(sp.obj, sp.off + 4 * i)) for i in range(24)]
-        got = L1.resolve(lin_sum(L1, tmp))
-        want = lin_sum(L1, aw) if wide else product_spec(L1, ah, bh)
-        D = L1.resolve(L1.sub(got, want))
-        ok = (not D.t and D.c == 0)
-        st["prefix_how"] = "normal forms identical"
-        if not ok:
-            st["prefix_how"] = "full constraint set (QF_LIA)"
-            ok = L1.prove(L1.eq(got, want), "prefix identity")
-        if not ok:
-            st["prefix_fail"] = (got, want)
-            raise _PrefixFail()
+        st["prefix_how"] = decide_sum(
+            L1, X_, tmp, lin_sum(L1, aw) if wide else product_spec(L1, ah, bh), key + ":prefix", kind, alias,
+            "%s: the 768-bit temporary does not hold %s when the reduction starts" % (sym, "a" if wide else "the product"),
+            lambda env: [(model_value(env, "a", 24 if wide else 12, not wide), 0 if wide else model_value(env, "a" if bw is aw else "b", 12, True))])
         L2 = Lin32(timeout_ms)
         tv = sym_words(L2, "t", 24)
-        L2.solver.add(L2.z(lin_sum(L2, tv)) < Q * R384)     # A = a*b < p^2 < p*2^384 for a, b < p (integer arithmetic on the real product), A = a < p*2^384 for the plain reduction
+        # A = a*b < p^2 < p*2^384 for a, b < p (integer arithmetic on the real product); A = a < p*2^384 is the documented domain of the plain reduction
+        L2.solver.add(L2.z(lin_sum(L2, tv)) < Q * R384)
         memo = {}
 
         def conv(v):
@@ -405,12 +419,12 @@ def t1_montgomery(kind, alias=0, timeout_ms=120000):
                 return v
             if v.is_const():
                 return L2.const(v.c)
-            k = L1.key(v)
+            k = L1.key(L1.resolve(v))
             if k not in memo:
-                memo[k] = L2.var("stale%d" % len(memo), 32)
+                memo[k] = L2.var("stale%d" % len(memo), 32)     # whatever else is live is an arbitrary word from here on
             return memo[k]
         for i in range(24):
-            memo[L1.key(L1.resolve(tmp[i]))] = tv[i]
+            memo[L1.key(L1.resolve(tmp[i]))] = tv[i]          # registers holding a copy of a temporary word keep denoting that word
         for r in X_.regs:
             X_.regs[r] = conv(X_.regs[r])
         for o in X_.objects + [X_.stack]:
@@ -418,57 +432,45 @@ def t1_montgomery(kind, alias=0, timeout_ms=120000):
                 o.cells[off] = (sz, conv(v))
         for i in range(24):
             X_.stack.cells[sp.off + 4 * i] = (4, tv[i])
-        X_._drop()
-        X_.C = easm_t1.POISON if isinstance(X_.C, (LV, easm_t1.Lazy)) else X_.C
+        if isinstance(X_.C, (LV, easm_t1.Lazy)):
+            X_.C, X_.c_src = easm_t1.POISON, X_.cur
         X_.L = L2
-        st.update(cut=True, tv=tv, L2=L2, cut_at=X_.cur.where)
+        st.update(cut=True, tv=tv, L2=L2, cut_at=X_.cur.where, steps_at_cut=X_.steps, carries_at_cut=X_.proved_carries)
 
     def post_mul(X_, x, y, r):
         if st["cut"] and (is_inv(x) or is_inv(y)):
             st["us"].append(r)
     X.pre_mul, X.mul_hook = pre_mul, post_mul
-    try:
-        X.call(sym, args, sargs, objs)
-    except _PrefixFail:
-        got, want = st["prefix_fail"]
-        env = L1.model_for(z3.Not(L1.eq(got, want))) or {}
-        fail(key + ":prefix", kind, alias, "%s: the 768-bit temporary does not hold %s when the reduction starts%s" % (sym, "a" if wide else "the product", lost_text(X)),
-             [(model_value(env, "a", 24 if wide else 12, not wide), model_value(env, "a" if bw is aw else "b", 12, True) if not wide else 0)])
+    X.call(sym, args, sargs, objs)
+    ce = {"t1_kernel": kind, "backend": "t1", "alias": alias}
     if not st["cut"]:
-        raise Violation(key + ":shape", "%s never multiplies by the inverse word" % sym, {"t1_kernel": kind, "backend": "t1"})
+        raise Violation(key + ":shape", "%s never multiplies by the inverse word" % sym, ce)
     if "T" not in seen:
-        raise Violation(key + ":shape", "%s never calls fpbase_384_reduce" % sym, {"t1_kernel": kind, "backend": "t1"})
+        raise Violation(key + ":shape", "%s never calls fpbase_384_reduce" % sym, ce)
     L2 = st["L2"]
     if len(st["us"]) != 12:
-        raise Inconclusive("expected 12 multiplications by the inverse word, saw %d" % len(st["us"]))
+        fail(key + ":shape", kind, alias, "%s: expected 12 multiplications by the inverse word, saw %d" % (sym, len(st["us"])))
     T, U, A = lin_sum(L2, seen["T"]), lin_sum(L2, st["us"]), lin_sum(L2, st["tv"])
     D = L2.resolve(L2.sub(L2.scale(T, R384), L2.add(A, L2.scale(U, Q))))
-    words_ok = all(isinstance(w, LV) and w.lo >= 0 and w.hi <= M32 for w in seen["T"] + st["us"])
-    Ts, As, Us = z3.Int("T"), z3.Int("A"), z3.Int("U")
+    detail = "%s: T*2^384 = A + U*p with T < 2p does not hold for the twelve words handed to fpbase_384_reduce" % sym
+    Ts, As, Us = z3.Int("T!"), z3.Int("A!"), z3.Int("U!")
     facts = [Ts * R384 - As - Us * Q == L2.z(D), Ts >= 0, Ts < R384, Us >= 0, Us < R384, As >= 0, As < Q * R384]
-    ok = residual_zero(L2, D, facts, Ts < 2 * Q) if words_ok else None
-    how = "residual of the normal forms (%d terms) + word ranges" % len(D.t)
-    if not ok:
-        how = "full constraint set (QF_LIA)"
+    how = "z3 on the residual of the normal forms (%d terms) + ranges of the words of T and U and A < p*2^384" % len(D.t)
+    if not (words_in_range(seen["T"] + st["us"]) and residual_zero(L2, D, facts, Ts < 2 * Q)):
+        fail(key + ":identity", kind, alias, detail + lost_text(X), inconclusive_ok=True)
+        how = "z3 on the full constraint set (QF_LIA)"
         ident = L2.z(T) * R384 == L2.z(A) + L2.z(U) * Q
-        ok = L2.prove(ident, "montgomery identity")
+        ok = L2.prove(ident, "montgomery identity", 30000)
         if ok:
             L2.solver.add(ident)
-            ok = L2.prove(L2.z(T) < 2 * Q, "T < 2p")
-            if ok is None:
-                raise Inconclusive("solver unknown on T < 2p for " + sym)
-        elif ok is None:
-            fail(key + ":identity", kind, alias, "%s: solver cannot establish T*2^384 = A + U*p at the call to fpbase_384_reduce%s" % (sym, lost_text(X)))
-    if not ok:
-        fail(key + ":identity", kind, alias, "%s: T*2^384 = A + U*p with T < 2p does not hold at the call to fpbase_384_reduce%s" % (sym, lost_text(X)))
+            ok = L2.prove(L2.z(T) < 2 * Q, "T < 2p", 30000)
+        if not ok:
+            raise Inconclusive("%s: %s is not established by the solver (%s) and no concrete witness was found%s" % (
+                key, detail, "unknown" if ok is None else "countermodel over opaque quantities", lost_text(X)))
     note = ""
     if seen.get("src_mod8"):
         note = "; note: the BigInt<384>& handed to reduce is at entry sp%+d (= %d mod 8)" % (seen["src"].off - easm_t1.ENTRY, seen["src_mod8"])
     return {"queries": L1.queries + L2.queries, "solver_s": L1.solver_time + L2.solver_time, "paths": 1, "functions": [sym],
-            "sample": "%s alias=%d: %d instructions; temporary == %s at %s (%s); then T*2^384 = A + U*p and T < 2p for every A < p*2^384 (%s); %d dropped carries proved zero, "
+            "sample": "%s alias=%d: %d instructions; temporary == %s at %s (%s); then T*2^384 = A + U*p and T < 2p for every A < p*2^384 (%s); %d dropped carries proved zero by z3, "
                       "%d words zero by divisibility%s" % (sym, alias, X.steps, "a" if wide else "sum of half products", st.get("cut_at"), st["prefix_how"], how,
                                                        X.proved_carries, L2.div_facts, note)}
-
-
-class _PrefixFail(Exception):
-    pass
